@@ -56,6 +56,11 @@ func vrdBytes(v string) []byte {
 		fmt.Sscanf(v[2:], "%d", &n)
 		tv = &sdcpb.TypedValue{Value: &sdcpb.TypedValue_UintVal{UintVal: n}}
 	}
+	if strings.HasPrefix(v, "i:") {
+		var n int64
+		fmt.Sscanf(v[2:], "%d", &n)
+		tv = &sdcpb.TypedValue{Value: &sdcpb.TypedValue_IntVal{IntVal: n}}
+	}
 	if strings.HasPrefix(v, "l:") {
 		// a leaf-list: l:a,b,c
 		var el []*sdcpb.TypedValue
@@ -76,7 +81,7 @@ func vrdDatum(v string) string {
 		sort.Strings(el)
 		return strings.Join(el, ",")
 	}
-	return strings.TrimPrefix(strings.TrimPrefix(v, "s:"), "u:")
+	return strings.TrimPrefix(strings.TrimPrefix(strings.TrimPrefix(v, "s:"), "u:"), "i:")
 }
 
 func vrdTvString(tv *sdcpb.TypedValue) string {
@@ -121,7 +126,9 @@ func TestVerifReplayDeviations(t *testing.T) {
 			{{"i1", 10, "a"}, {"i3", 30, "a"}, {"i2", 20, "b"}, {"i4", 40, "b"}},
 		}},
 		// a uint32 leaf whose intents are stored partly as strings: values are compared after normalisation
-		{[]string{"rangetestunsigned"}, "rangetestunsigned", []string{"u:20", "s:20"}, [][]vrdIntent{
+		{[]string{"rangetestunsigned"}, "rangetestunsigned", []string{"u:20", "s:20", "i:20"}, [][]vrdIntent{
+			{{"i1", 5, "i:20"}, {"i2", 10, "u:20"}},
+			{{"i1", 5, "u:20"}, {"i2", 10, "i:30"}},
 			{{"i1", 5, "u:20"}, {"i2", 10, "s:20"}},
 			{{"i1", 5, "u:20"}, {"i2", 10, "s:30"}},
 			{{"i1", 5, "s:20"}},
@@ -372,6 +379,68 @@ func TestVerifReplayDeviations(t *testing.T) {
 		}
 		if !reportedB || len(got) != 1 {
 			fmt.Printf("REPLAY-FAIL fn=%s clause=reports_exactly_the_deviations input=running=doublekey[key1=a/b][key2=c]/mandato (held by intent A),intent B holds doublekey[key1=a][key2=b/c]/mandato which running lacks why=reported %v, the deviation is NOT_APPLIED for intent B\n", fn, got)
+		}
+		ctrl.Finish()
+	}
+	// the store answers a read with everything at or below the path: a presence container in running must not be judged
+	// by the intents of the leaves below it
+	{
+		n++
+		pc := []string{"choices", "case1"}
+		pl := []string{"choices", "case1", "log"}
+		ev, _ := proto.Marshal(&sdcpb.TypedValue{Value: &sdcpb.TypedValue_EmptyVal{}})
+		bv, _ := proto.Marshal(&sdcpb.TypedValue{Value: &sdcpb.TypedValue_BoolVal{BoolVal: true}})
+		ctrl := gomock.NewController(t)
+		cc := mockcacheclient.NewMockClient(ctrl)
+		runC := cache.NewUpdate(pc, ev, 0, "running", 0)
+		runL := cache.NewUpdate(pl, bv, 0, "running", 0)
+		iL := cache.NewUpdate(pl, bv, 10, "a", 0)
+		cc.EXPECT().ReadCh(gomock.Any(), gomock.Any(), gomock.Any(), gomock.Any(), gomock.Any()).AnyTimes().DoAndReturn(
+			func(_ context.Context, _ string, opts *cache.Opts, _ [][]string, _ time.Duration) chan *cache.Update {
+				ch := make(chan *cache.Update, 2)
+				if opts.Store == cachepb.Store_CONFIG {
+					ch <- runC
+					ch <- runL
+				}
+				close(ch)
+				return ch
+			})
+		cc.EXPECT().Read(gomock.Any(), gomock.Any(), gomock.Any(), gomock.Any(), gomock.Any()).AnyTimes().DoAndReturn(
+			func(_ context.Context, _ string, opts *cache.Opts, paths [][]string, _ time.Duration) []*cache.Update {
+				// by prefix, like the cache
+				if opts.Store == cachepb.Store_INTENDED && len(paths) == 1 && len(paths[0]) <= len(pl) && strings.Join(pl[:len(paths[0])], "\x00") == strings.Join(paths[0], "\x00") {
+					return []*cache.Update{iL}
+				}
+				return nil
+			})
+		cc.EXPECT().GetKeys(gomock.Any(), gomock.Any(), gomock.Any()).AnyTimes().DoAndReturn(
+			func(_ context.Context, _ string, store cachepb.Store) (chan *cache.Update, error) {
+				ch := make(chan *cache.Update, 1)
+				if store == cachepb.Store_INTENDED {
+					ch <- iL
+				}
+				close(ch)
+				return ch, nil
+			})
+		scl, schema, err := testhelper.InitSDCIOSchema()
+		if err != nil {
+			t.Fatal(err)
+		}
+		d := &Datastore{config: &config.DatastoreConfig{Name: "dev1", Schema: schema}, cacheClient: cc,
+			schemaClient: schemaClient.NewSchemaClientBound(schema.GetSchema(), scl), m: &sync.RWMutex{}, md: &sync.RWMutex{}}
+		st := &vrdStream{}
+		d.runDeviationUpdate(context.Background(), map[string]sdcpb.DataServer_WatchDeviationsServer{"c1": st})
+		var got []string
+		for _, m := range st.msgs {
+			if m.GetEvent() == sdcpb.DeviationEvent_UPDATE {
+				got = append(got, fmt.Sprintf("%s intent=%s path=%s", m.GetReason(), m.GetIntent(), utils.ToXPath(m.GetPath(), false)))
+			}
+		}
+		sort.Strings(got)
+		if strings.Join(got, "; ") != "UNHANDLED intent=running path=choices/case1" {
+			for _, f := range []string{fn, "datastore.updatesAtPath"} {
+				fmt.Printf("REPLAY-FAIL fn=%s clause=reports_exactly_the_deviations input=running=choices/case1 (presence container) and choices/case1/log=true,intent a@10 holds choices/case1/log=true why=reported %v, the deviation is UNHANDLED for the container no intent defines\n", f, got)
+			}
 		}
 		ctrl.Finish()
 	}
